@@ -218,3 +218,15 @@ Fixpoint edges (held : list lock) (p : program) : list (lock * lock) :=
   end.
 Definition has_edge (a b : lock) (p : program) : bool :=
   existsb (fun e => lock_eqb (fst e) a && lock_eqb (snd e) b) (edges [] p).
+
+(** every acquisition of a lock of class [inner] (the store) happens while a lock whose class is in
+    [outer] is held: the write belongs to that critical section *)
+Fixpoint nested_under (outer : list N) (inner : N) (held : list lock) (p : program) : bool :=
+  match p with
+  | [] => true
+  | Acq l :: r =>
+      (negb (fst l =? inner) || existsb (fun h => existsb (N.eqb (fst h)) outer) held)
+      && nested_under outer inner (l :: held) r
+  | Rel l :: r => nested_under outer inner (drop l held) r
+  | Touch _ :: r => nested_under outer inner held r
+  end.
